@@ -36,6 +36,25 @@ CHECKS.update({
                 design="DESIGN.md §4 C12"),
 })
 
+CHECKS.update({
+    "C11": dict(level="other",
+                text="Each documented state-error exit is taken exactly under its condition (must-facts at the exit + product-state path search for the converse) with the documented variant; no write or &mut call precedes the turn/finished guards; turn/progress written only on the Ok edge with the right values; indicator getters return the fields; conversions gated on is_handshake_finished(); one-way guards with the right role polarity before any cipher use; is_oneway's list equals the one-message rows of the extracted pattern table. The call-sequence quantifier collapses because every guard is a function of four audited fields.",
+                technique="MIR must-fact (guard) dataflow + product-state CFG path search + HIR table cross-check",
+                design="DESIGN.md §4 C11"),
+    "C13": dict(level="other",
+                text="Terminal tables of every FromStr impl (incl. the 38 macro-generated pattern names) compared with the specification per feature configuration; five-field composition structure, too-few/too-many errors, name stored verbatim; descending longest-prefix split with char-boundary guards and table-derived unambiguity; '+' modifier list with per-push duplicate check. Language equivalence is decided up to the std semantics of split/starts_with/u8::from_str.",
+                technique="typed-HIR table and structure extraction compared with spec tables + MIR guard facts",
+                design="DESIGN.md §4 C13"),
+    "C15": dict(level="other",
+                text="Dataflow and constants of the default REKEY (nonce 2^64-1, empty AD, 32 zero bytes, 48-byte buffer, first 32 bytes, set()); not overridden by any local impl; rekey write sets are {cipher} only; direction mapping of the whole rekey API in both transport types equals the role table; manual keys pass through unchanged. Rejection when only one side rekeys is not decided (AEAD).",
+                technique="MIR dataflow template matching (operand provenance, promoted constants) + effect summaries + role-table extraction",
+                design="DESIGN.md §4 C15"),
+    "C16": dict(level="proof",
+                text="&self receivers, deep Freeze of everything reachable from the stateless state (all local Cipher impls behind dyn), no unsafe code, Send+Sync from the trait solver, empty self-rooted write set, nonce/AD passthrough, twin equality of the stateful and stateless cipher-state functions (same call, same guards, nonce operand self.n vs parameter), conversion moves cipher/has_key. All obligations finite and discharged; round-trip correctness itself rests on the AEAD crates.",
+                technique="type facts from the trait solver + deep Freeze walk + MIR effect summaries + sibling dataflow comparison + compile-only doc-test witnesses",
+                design="DESIGN.md §4 C16"),
+})
+
 PENDING_REASON = "check under construction in this session (static rule not armed yet); see DESIGN.md §4"
 
 
